@@ -47,6 +47,7 @@ func c01(c *core.Check) {
 	c01AttrTag(c)
 	c01StridedLoops(c)
 	c01GridWidth(c)
+	c01FetchRecursion(c)
 	c01OrderedSlices(c)
 
 	p := c.Prog
